@@ -29,8 +29,11 @@ def _configure(c: rs.SysCase, tbs):
         if cfg.get("memory"):
             tmp["dir"] = tempfile.mkdtemp(prefix="ofv_c17_", dir="/var/tmp")
             sim._data_storage_dir = tmp["dir"]
-            sim.memory_config = MemoryConfig(max_memory_occupation=0, priority_variables=_names(c, "priority_vars"),
-                                             variables_to_drop=_names(c, "drop_vars"))
+            # threshold 0: every value goes to a real file; 1 (= 100 %): the disk store exists and stays empty; given as a
+            # number or as the text a configuration file holds
+            thr = cfg.get("threshold", 0)
+            sim.memory_config = MemoryConfig(max_memory_occupation=(str(thr) if cfg.get("threshold_text") else thr),
+                                             priority_variables=_names(c, "priority_vars"), variables_to_drop=_names(c, "drop_vars"))
         if cfg.get("blacklist"):
             tbs.cache_blacklist = set(_names(c, "blacklist_vars"))
             sim.opt_out_cache = True
@@ -64,6 +67,13 @@ def _reads(c: rs.SysCase, v: int, tok: str):
 
     def walk(e):
         k = e[0]
+        if k == "o1" and e[1] == rs.OP_PARAM and e[2][0] == "v":
+            return                                   # a parameter, not a variable
+        if k == "o1" and e[1] == rs.OP_DIVIDE and e[2][0] == "v":
+            # DIVIDE: one read, of the variable at its definition-period-long period around the start of the requested one
+            w, pt = e[2][1], e[2][2]
+            out.append((w, rs.div_target(c.vars[w], c01._pt(tok, pt))[0]))
+            return
         if k == "v":
             _, w, pt, add = e
             q = c01._pt(tok, pt)
@@ -82,15 +92,52 @@ def _reads(c: rs.SysCase, v: int, tok: str):
     return out
 
 
+def _param_reads(c: rs.SysCase, v: int, tok: str):
+    """the parameter reads the formula in force at (v, tok) performs, in order: (parameter name, instant text, value);
+    from the declaration alone (dated values: the latest start on or before the instant)"""
+    import datetime as dt
+    from ..perutil import parse_date
+    var = c.vars[v]
+    start_ord = dt.date(*parse_date(tok.split("/")[1])).toordinal()
+    if var.end is not None and start_ord > var.end:
+        return []
+    cands = [(s, e) for (s, e) in var.formulas if s <= start_ord]
+    if not cands:
+        return []
+    e = max(cands, key=lambda se: se[0])[1]
+    out = []
+
+    def walk(e):
+        k = e[0]
+        if k == "o1" and e[1] == rs.OP_PARAM and e[2][0] == "v":
+            i, pt = e[2][1], e[2][2]
+            q = c01._pt(tok, pt)
+            day = dt.date(*parse_date(q.split("/")[1]))
+            vals = [(st, val) for (st, val) in c.params[i] if st <= day.toordinal()]
+            name = rs.param_name(i)
+            out.append((name if "." in name else "." + name, day.isoformat(), max(vals)[1]))
+        elif k == "o1":
+            walk(e[2])
+        elif k == "o2":
+            walk(e[2]); walk(e[3])
+        elif k == "f":
+            walk(e[2])
+    walk(e)
+    return out
+
+
 def _check_reads(c: rs.SysCase, tfield: str):
     """independent of the model: the recorded children of every node equal the reads of its formula in force"""
     if tfield == "T:":
         return None
     for item in tfield[2:].split("&"):
         k, deps = item.split(">")
+        deps = deps.split("$")[0]
         v, tok = k.split("@")
         v = int(v)
         if c.vars[v].unit == "eternity":
+            continue
+        if not deps:
             continue
         try:
             want = []
@@ -130,11 +177,42 @@ def _trace_check(c: rs.SysCase, sim):
     return None
 
 
-def _flat_check(sim):
+def _params_check(c: rs.SysCase, sim):
+    """every COMPLETED calculation of the trace trees recorded exactly the parameter reads of its formula in force, in
+    order, with the values read (from the declaration alone)"""
+    from ..perutil import fmt_period
+    if not getattr(c, "params", None):
+        return None
+
+    def walk(node):
+        v = int(node.name[1:])
+        if node.value is not None and v < len(c.vars) and c.vars[v].unit != "eternity" and (node.children or node.parameters):
+            try:
+                want = _param_reads(c, v, fmt_period(node.period))
+            except Exception:
+                want = None
+            got = [(p.name, str(p.period), p.value.tolist() if hasattr(p.value, "tolist") else p.value) for p in node.parameters]
+            if want is not None and got != want:
+                return f"the trace of {node.name}<{node.period}> records the parameter reads {got[:6]}, its formula performs {want[:6]}"
+        for ch in node.children:
+            m = walk(ch)
+            if m:
+                return m
+        return None
+    for root in sim.tracer.trees:
+        m = walk(root)
+        if m:
+            return m
+    return None
+
+
+def _flat_check(sim, light=False):
     """the flat trace (what the web API serves) against the trace trees: the entry of every node is its
     chronologically first occurrence -- the calculation itself, later occurrences being cache reads --
     with that occurrence's reads, in order, and its value"""
+    import sys
     import numpy
+    from openfisca_core.indexed_enums import EnumArray
     try:
         flat = sim.tracer.get_flat_trace()
     except Exception as exc:
@@ -155,14 +233,18 @@ def _flat_check(sim):
         want = [f"{ch.name}<{ch.period}>" for ch in node.children]
         if list(flat[k]["dependencies"]) != want:
             return f"the flat trace of {k} lists the reads {list(flat[k]['dependencies'])[:8]}, its calculation performed {want[:8]}"
+        wantp = {f"{p.name}<{p.period}>": (p.value.tolist() if hasattr(p.value, "tolist") else p.value) for p in node.parameters}
+        if dict(flat[k]["parameters"]) != wantp:
+            return f"the flat trace of {k} lists the parameters {dict(flat[k]['parameters'])}, its calculation read {wantp}"
         a, b = flat[k]["value"], node.value
         if (a is None) != (b is None) or (a is not None and not numpy.array_equal(numpy.asarray(a), numpy.asarray(b))):
             return f"the flat trace of {k} carries a value other than the one its calculation returned"
     for k in flat:
         if k not in first:
             return f"the flat trace lists {k}, which the trace trees do not record"
+    if light:                    # after every request: the flat trace against the trees; the rest once, at the end
+        return None
     # the serialised form (web API /trace): same keys, same reads, the values written out
-    from openfisca_core.indexed_enums import EnumArray
     try:
         ser = sim.tracer.get_serialized_flat_trace()
     except Exception as exc:
@@ -199,6 +281,53 @@ def _flat_check(sim):
         return f"computation_log.lines raised {type(exc).__name__}: {str(exc)[:80]}"
     if len(lines) != len(want_lines) or any(not l.startswith(w) for l, w in zip(lines, want_lines)):
         return "the computation log does not list the calculations in the order and at the depth of the trace trees"
+    # ... with the values returned: each line ends with the value of its node as numpy prints it
+    nodes = []
+
+    def walk3(node):
+        nodes.append(node)
+        for ch in node.children:
+            walk3(ch)
+    for root in sim.tracer.trees:
+        walk3(root)
+    for l, w, node in zip(lines, want_lines, nodes):
+        v = node.value
+        if v is None:
+            continue
+        shown = numpy.array2string(v.decode_to_str() if isinstance(v, EnumArray) else v, max_line_width=sys.maxsize)
+        if l != w + shown:
+            return f"the computation log line {l[:80]!r} does not carry the value its calculation returned ({shown[:40]})"
+    # what print_computation_log() prints by default IS that log (values, not aggregates, whole depth)
+    import contextlib
+    import io
+    buf = io.StringIO()
+    with contextlib.redirect_stdout(buf):
+        sim.tracer.print_computation_log()
+    if buf.getvalue().splitlines() != "\n".join(lines).splitlines():
+        return "print_computation_log() does not print the computation log (values of every calculation, whole depth)"
+    # the aggregated log: same calculations, same order and depth; minimum, maximum and mean of numeric values
+    agg = sim.tracer.computation_log.lines(aggregate=True)
+    if len(agg) != len(want_lines) or any(not l.startswith(w) for l, w in zip(agg, want_lines)):
+        return "the aggregated computation log does not list the calculations in the order and at the depth of the trace trees"
+    for l, w, node in zip(agg, want_lines, nodes):
+        v = node.value
+        if v is None or isinstance(v, EnumArray) or v.dtype.kind not in "iufb":
+            continue
+        want = str({"avg": numpy.mean(v), "max": numpy.max(v), "min": numpy.min(v)})
+        if l != w + want:
+            return f"the aggregated computation log line {l[:90]!r} does not carry the mean / maximum / minimum of the value ({want})"
+    # limited depth: exactly the lines of the calculations at depth <= d
+    depths = []
+
+    def walk4(node, d):
+        depths.append(d)
+        for ch in node.children:
+            walk4(ch, d + 1)
+    for root in sim.tracer.trees:
+        walk4(root, 1)
+    cut = sim.tracer.computation_log.lines(max_depth=1)
+    if cut != [l for l, d in zip(lines, depths) if d <= 1]:
+        return "the computation log limited to depth 1 is not the list of the top-level calculations"
     return None
 
 
@@ -218,9 +347,17 @@ def _real_reads(c: rs.SysCase, sim) -> str:
         tok = "eternity/-1,-1,-1/-1" if c.vars[v].unit == "eternity" else fmt_period(node.period)
         return f"{v}@{tok}"
 
+    import datetime as dt
+    pid = {("." + rs.param_name(i) if "." not in rs.param_name(i) else rs.param_name(i)): i for i in range(len(getattr(c, "params", None) or []))}
+
+    def pkey(pn):
+        val = pn.value.tolist() if hasattr(pn.value, "tolist") else pn.value
+        return f"{pid.get(pn.name, pn.name)}:{dt.date.fromisoformat(str(pn.period)).toordinal()}:{val}"
+
     def walk(node):
-        if node.children:
-            table.setdefault(key(node), "+".join(key(ch) for ch in node.children))
+        if node.children or node.parameters:
+            table.setdefault(key(node), "+".join(key(ch) for ch in node.children)
+                             + ("$" + "+".join(pkey(pn) for pn in node.parameters) if node.parameters else ""))
         for ch in node.children:
             walk(ch)
     for root in sim.tracer.trees:
@@ -392,34 +529,18 @@ def impl(case: Case) -> str:
     c: rs.SysCase = pickle.loads(bytes.fromhex(case.payload))
     tbs, ctx, E5 = rs.build_system(c)
     configure, tmp = _configure(c, tbs)
+    trace = bool(c.config.get("trace"))
+    state = {"msg": None}
+
+    def after_request(sim, r, o):
+        if trace and state["msg"] is None and r[0] in ("calc", "add", "div", "out"):
+            state["msg"] = _flat_check(sim, light=True)      # consulted after EVERY request, not only at the end
+    sim = None
     try:
-        sim = rs.build_simulation(c, tbs, E5, configure)
-        outs = []
-        trace_msg = None
-        for r in c.reqs:
-            if r[0] == "reads":
-                outs.append(_real_reads(c, sim) if c.config.get("trace") else "T:?")
-                continue
-            kind, v, tok = r
-            try:
-                from ..perutil import parse_period_token
-                p = parse_period_token(tok)
-                res = sim.calculate(f"v{v}", p) if kind == "calc" else sim.calculate_add(f"v{v}", p)
-                o = "ok:" + rs.canon_array(res)
-            except Exception as exc:
-                o = rs.classify(exc)
-            if sim.tracer.stack or sim.invalidated_caches:
-                o += "#STATE"
-            outs.append(o)
-            if c.config.get("trace") and trace_msg is None:
-                trace_msg = _flat_check(sim)      # consulted after EVERY request, not only at the end
-        try:
-            known = ",".join(f"{k}={v}" for k, v in rs.known_entries(c, sim))
-        except Exception as exc:     # a stored value that cannot be read back
-            known = f"#UNREADABLE:{type(exc).__name__}: {str(exc)[:120]}"
-        out = ";".join(outs) + "|" + known
-        if c.config.get("trace"):
-            msg = trace_msg or _flat_check(sim)
+        out, sim, _problems = rs.run_real(c, configure=configure, after_request=after_request, system=(tbs, ctx, E5),
+                                          on_reads=(lambda sim: _real_reads(c, sim)) if trace else None)
+        if trace:
+            msg = state["msg"] or _flat_check(sim) or _params_check(c, sim)
             if msg:
                 out += "#TRACE:" + msg
         return out
@@ -437,10 +558,12 @@ def canon_equal(case: Case, impl_out: str, model_out: str) -> bool:
     if rs.values_too_large(impl_out) or rs.values_too_large(model_out):
         return True
     a, b = impl_out.split("#TRACE:")[0], model_out
-    if "T:?" in a:            # tracing off: the model's reads are not observable on this run
+    if "T:?" in a or "#L:?" in a:            # tracing off: the model's reads and logs are not observable on this run
         import re
         a = re.sub(r"T:[^;|]*", "T:", a)
         b = re.sub(r"T:[^;|]*", "T:", b)
+        a = re.sub(r"#L:[^;|]*", "", a)
+        b = re.sub(r"#L:[^;|]*", "", b)
     return a == b
 
 
@@ -467,6 +590,7 @@ def oracle(case: Case, out: str):
     pout, _, _ = rs.run_real(plain)
     want = pout.split("|")[0].split(";")
     for i, (g, w) in enumerate(zip(got, want)):
+        g, w = g.split("#L:")[0], w.split("#L:")[0]
         if w.startswith("ok:") and g != w:
             opts = [o for o in OPTS if c.config.get(o)]
             return ("config-changes-result", f"request #{i} {c.reqs[i]} under {opts}: {g}, the plain in-memory run returns {w}")
@@ -493,20 +617,27 @@ def _with_config(rng, c: rs.SysCase, subset) -> rs.SysCase:
     # dropping an input-carrying variable loses nothing (inputs are set through set_input, not put_in_cache)
     # a third of the inputs are written twice (the latest value counts)
     cfg["rewrite"] = [i for i in range(len(c.inputs)) if rng.random() < 0.3]
+    # any occupation threshold: 0 (everything on disk) mostly, 1 (nothing on disk), as a number or as text
+    cfg["threshold"] = 1 if rng.random() < 0.2 else 0
+    cfg["threshold_text"] = rng.random() < 0.3
     return rs.derive(c, config=cfg)
 
 
 def generate(rng: random.Random, tier: str):
-    nsys = 250 if tier == "quick" else 2500
+    nsys = 220 if tier == "quick" else 1200
     subsets = [s for k in range(len(OPTS) + 1) for s in itertools.combinations(OPTS, k)]
     out = []
-    for _ in range(nsys):
-        c = rs.gen_case(rng, kind="ranked", msl=1, nreq=rng.randint(3, 7))
-        c.reqs = [r for r in c.reqs] + [("reads",)]
+    for j in range(nsys):
+        # half of the systems use the extended language: DIVIDE reads, parameters (their reads are part of the trace),
+        # calculate_divide / get_array / delete_arrays of computed values between the requests
+        ext = {"divide", "params", "requests"} if j % 2 else None
+        c = rs.gen_case(rng, kind="ranked", msl=1, nreq=rng.randint(3, 7), features=ext)
+        # a third of the plain requests ask for the whole trace of the request (compared with the model's log when tracing is on)
+        c.reqs = [(("tcalc",) + tuple(r[1:]) if r[0] == "calc" and rng.random() < 0.35 else r) for r in c.reqs] + [("reads",)]
         for sub in subsets:
             c2 = _with_config(rng, c, sub)
             out.append(_case(c2, tuple("opt:" + o for o in sub) or ("plain",)))
-    out += gen_hst(rng, 3000 if tier == "quick" else 60000)
+    out += gen_hst(rng, 3000 if tier == "quick" else 40000)
     return out
 
 
@@ -522,11 +653,35 @@ def corpus():
         cfg = {o: (o in sub) for o in OPTS}
         cfg.update(priority_vars=[], drop_vars=[], blacklist_vars=[])
         out.append(_case(rs.derive(c, config=cfg), ("corpus",) + tuple("opt:" + o for o in sub)))
+    # the extended language under every storage option: DIVIDE reads, parameters (recorded in the trace), the whole trace of
+    # a request (`tcalc`), deletion of computed values on disk-backed holders
+    import datetime as dt
+    y0 = rs.Var(vtype="float", unit="year", dflt=4)
+    m1 = rs.Var(vtype="int", unit="month", dflt=0, formulas=[(1, ("o2", 0, ("o1", rs.OP_DIVIDE, ("v", 0, "same", False)), ("o1", rs.OP_PARAM, ("v", 0, "same", False))))])
+    m2 = rs.Var(vtype="float", unit="month", dflt=0, formulas=[(1, ("o2", 0, ("o2", 0, ("v", 1, "same", False), ("v", 1, "last_month", False)), ("o1", rs.OP_PARAM, ("v", 1, "this_year", False))))])
+    c2 = rs.SysCase(2, 1, [0, 0], 1, [y0, m1, m2], [(0, "year/2018,1,1/1", [25, -25])],
+                    [("tcalc", 2, M[3]), ("tcalc", 2, M[3]), ("get", 1, M[2]), ("del", 1, "year/2018,1,1/1"), ("get", 1, M[2]), ("div", 0, M[3]), ("tcalc", 2, M[4]),
+                     ("out", 1, M[3]), ("tcalc", 5, M[1]), ("tcalc", 1, "year/2018,1,1/1"), ("reads",)],
+                    params=[[(dt.date(2017, 1, 1).toordinal(), 3), (dt.date(2018, 2, 1).toordinal(), 5)], [(dt.date(2016, 1, 1).toordinal(), 2)]], outputs=[2, 1, 0])
+    for sub in [("trace",), ("trace", "memory"), ("memory", "drop"), ("trace", "blacklist"), ()]:
+        cfg = {o: (o in sub) for o in OPTS}
+        cfg.update(priority_vars=[], drop_vars=[1] if "drop" in sub else [], blacklist_vars=[1] if "blacklist" in sub else [])
+        out.append(_case(rs.derive(c2, config=cfg), ("corpus", "ext") + tuple("opt:" + o for o in sub)))
     return out
+
+
+def _init_worker():
+    """the adapter calls gc.collect() after every case (the disk stores remove their directories in __del__); a full
+    collection walks every tracked object of the process, and a forked worker inherits all the generated cases: freeze
+    what exists at start so that a collection only looks at what the cases create"""
+    import gc
+    gc.collect()
+    gc.freeze()
 
 
 PROP = Prop(
     pid="C17",
+    init_worker=_init_worker,
     lean_targets=["OFCore.Props.C17"],
     driver="ofdrv_sim",
     generate=generate, impl=impl, oracle=oracle, nontrivial=nontrivial, corpus=corpus, canon_equal=canon_equal,
@@ -537,13 +692,20 @@ PROP = Prop(
           "every request equals the plain in-memory run, and with tracing on every calculated node of the flat trace lists exactly the reads of "
           "its formula in force, in order; a third of the inputs are written twice, the first time below and the second time above the "
           "occupation threshold; the flat trace, its serialised form and the computation log are compared with the trace trees after every "
-          "request. Second stream (`hst`, 3 000 histories): writes (set_input / put_in_cache, threshold moved before each), reads, deletions and "
+          "request -- including the parameters read (flat trace vs trees, and against the declaration: exactly the parameter reads of the formula in "
+          "force, in order, with the values in force at the instant), the values printed by the log, print_computation_log() (default arguments), the "
+          "aggregated log (mean / max / min) and the log cut at depth 1. Half of the systems use the extended language (DIVIDE reads, dated parameters) "
+          "and the other entry points between the requests (calculate_divide, calculate_output, get_array, delete_arrays of computed values -- also on "
+          "disk-backed holders); a third of the plain requests are `tcalc`: the WHOLE trace of the request (every calculation opened, at every depth, "
+          "with its value and its reads) is compared with the log of the model's instrumented machine `runL`, the object of C17_trace_every_calculation; "
+          "the memory configuration's threshold is 0 (80%) or 1 (nothing ever goes to disk), given as a number or as text. Second stream (`hst`, 3 000 histories): writes (set_input / put_in_cache, threshold moved before each), reads, deletions and "
           "known periods on ONE real holder -- every value type, dated and eternal variables, disk-storable or not -- against the two-tier store "
           "model and a one-dictionary oracle. Non-trivial = some option set and some value returned; distinct = distinct (line, option subset)."),
     assumptions=[
         "psutil's memory reading is not controlled; the threshold is: max_memory_occupation_pc = 0 (always at or above: disk) or 101 (never: memory)",
         "numpy.save/load and the file system are trusted; disk files live under /var/tmp and are removed after each case",
         "requests that the plain run refuses are outside the quantifier (the statement speaks of the values of the plain in-memory run)",
-        "the trace clause: C17_trace_reads is a theorem about the instrumented evaluator runET (it records exactly the reads of the expression); that the real FullTracer's children are these reads is checked by the correspondence (model readsOf vs tracer trees) and by the oracle",
+        "the trace clause: C17_trace_every_calculation is a theorem about the instrumented machine runL (every calculation of a request records exactly the reads of its formula); that the real FullTracer's trees are that log is checked by the correspondence (`tcalc` requests: model log vs tracer trees, entry by entry with values) and by the oracle; reads the engine refuses before it starts (unknown variable, wrong period) are `Expr.bad` in the model and are left out of the compared logs below the root",
+        "get_memory_usage (Simulation / Population / Holder / storages) reports memory, not results: outside the statement; performance_log times likewise",
     ],
 )
